@@ -30,4 +30,31 @@ CHECKS = {
     },
 }
 
+CHECKS.update({
+    "C02": {
+        "text": "Dewey::new's operator scan and Dewey::matches are TLA+ operators (Dewey.tla) checked by TLC against a scan-free grammar of comparison patterns for every string of <= 5 symbols over {a b - > < = 1 2 e-acute}; every such pattern's compile verdict and match row (through Pattern and through the standalone Dewey matcher) is replayed on the real code; random grammar-derived patterns are recorded from the code and re-evaluated by TLC.",
+        "design_ref": "DESIGN.md section 5, C02",
+        "note": "Exhaustive within the bounded alphabet/length; error kind and position are not compared. KF1 applies to bound evaluation.",
+        "technique": TECH,
+    },
+    "C04": {
+        "text": "csh brace expansion is defined declaratively (Csh) and operationally (BraceAlg = the implemented right-most-group algorithm) in Pattern.tla; TLC checks them equal, and the implemented matcher equal to 'some expansion compiles and matches', for every string of <= 7/9 symbols over { } , a b and every concatenation of <= 5/6 pieces over { } , a b -1 >1 *; each brace pattern is replayed on the real code against a name list, all of its expansions and all near-miss strings; random brace trees with dewey/glob tails are validated by TLC.",
+        "design_ref": "DESIGN.md section 5, C04",
+        "note": "Bounded enumeration plus seeded random trees (depth <= 3, <= 6 alternatives).",
+        "technique": TECH,
+    },
+    "C05": {
+        "text": "Shell-glob matching (textbook recursive definition), dispatch and the two-character fast reject are TLA+ operators; TLC checks fast-reject inertness and 'plain = identical string' on every pattern of <= 3/4 items over {a b - 1 * ? [ab] [!a] [0-9]} against all short names, and replays every pattern's verdict row on the real code; random well-formed globs with names differing in the first/second character are validated by TLC.",
+        "design_ref": "DESIGN.md section 5, C05",
+        "note": "Only the shell-glob subset on which all glob engines agree is judged ('**', '[]', '[^x]', backslash are not).",
+        "technique": TECH,
+    },
+    "C06": {
+        "text": "best_match as a reduction operator is a TLA+ state machine (BestMatch.tla, action Reduce(i,j)); TLC explores every order of pairwise reduction of every pool of <= 3/4 candidates (10 names x 4 patterns) and checks the survivor is the unique matching candidate no other beats; simulated reduction behaviours are replayed step by step on the real code; recorded random reductions (pools <= 8) are validated through the same Reduce action, and best_match pairs in both argument orders by the declarative definition.",
+        "design_ref": "DESIGN.md section 5, C06",
+        "note": "Bounded pools; the comparison underneath is C01's (KF1 applies).",
+        "technique": TECH,
+    },
+})
+
 NOT_APPLICABLE = {}
